@@ -1,0 +1,65 @@
+//! Read-only dump of an NFA for external verification tooling. Only compiled with
+//! `--cfg lexgen_verif`.
+
+use super::{AcceptingState, State, NFA};
+use crate::dfa::verif::VerifValue;
+
+fn set_json(set: &crate::collections::Set<super::StateIdx>) -> String {
+    let mut v: Vec<usize> = set.iter().map(|s| s.0).collect();
+    v.sort_unstable();
+    let v: Vec<String> = v.into_iter().map(|s| s.to_string()).collect();
+    format!("[{}]", v.join(","))
+}
+
+fn state_json<A: VerifValue>(state: &State<A>) -> String {
+    let mut chars: Vec<(u32, String)> = state
+        .char_transitions
+        .iter()
+        .map(|(c, t)| (*c as u32, set_json(t)))
+        .collect();
+    chars.sort();
+    let chars: Vec<String> = chars
+        .into_iter()
+        .map(|(c, t)| format!("{{\"c\":{},\"t\":{}}}", c, t))
+        .collect();
+
+    let ranges: Vec<String> = state
+        .range_transitions
+        .iter()
+        .map(|r| {
+            format!(
+                "{{\"lo\":{},\"hi\":{},\"t\":{}}}",
+                r.start,
+                r.end,
+                set_json(&r.value)
+            )
+        })
+        .collect();
+
+    let acc = match &state.accepting {
+        None => "[]".to_string(),
+        Some(AcceptingState { value, right_ctx }) => format!(
+            "[{{\"rule\":{},\"ctx\":{}}}]",
+            value.to_json(),
+            match right_ctx {
+                Some(ctx) => ctx.as_usize() as i64,
+                None => -1,
+            }
+        ),
+    };
+
+    format!(
+        "{{\"chars\":[{}],\"ranges\":[{}],\"eps\":{},\"any\":{},\"eoi\":{},\"acc\":{}}}",
+        chars.join(","),
+        ranges.join(","),
+        set_json(&state.empty_transitions),
+        set_json(&state.any_transitions),
+        set_json(&state.end_of_input_transitions),
+        acc
+    )
+}
+
+pub fn nfa_json<A: VerifValue>(nfa: &NFA<A>) -> String {
+    let states: Vec<String> = nfa.states.iter().map(state_json).collect();
+    format!("[{}]", states.join(","))
+}
